@@ -269,19 +269,19 @@ Qed.
 
 (* Response.content_type: a media type (non-empty, no semicolon) reads back as itself, whatever charset default
    the setter appends *)
-Lemma rct_roundtrip ct hl : ct <> [] -> no_semi ct ->
-  let '(hl', e) := rct_set (PStr ct) hl in e = None /\ rct_get hl' = VStr ct.
+Lemma rct_roundtrip dcs ct hl : ct <> [] -> no_semi ct ->
+  let '(hl', e) := rct_set dcs (PStr ct) hl in e = None /\ rct_get hl' = VStr ct.
 Proof.
   intros Hne Hs. unfold rct_set. destruct ct as [|c ct'] eqn:E; [congruence|]. rewrite <- E in *.
   split; [reflexivity|]. unfold rct_get. rewrite ct_get_put.
-  destruct (negb (contains s_charset_eq ct) && (str_eqb ct s_text_html || ct_has_charset ct)).
-  - assert (Ne : exists x t, ct ++ s_semi_charset ++ s_utf8 = x :: t) by (rewrite E; cbn; eauto).
+  destruct (negb (contains s_charset_eq ct) && nonempty dcs && (str_eqb ct s_text_html || ct_has_charset ct)).
+  - assert (Ne : exists x t, ct ++ s_semi_charset ++ dcs = x :: t) by (rewrite E; cbn; eauto).
     destruct Ne as [x [t Et]]. rewrite Et, <- Et. unfold s_semi_charset. rewrite <- app_assoc. cbn [app].
     rewrite (before_semi_app _ _ Hs). reflexivity.
   - rewrite E, <- E. rewrite (before_semi_all _ Hs). reflexivity.
 Qed.
 
-Lemma rct_removed hl : fst (rct_set PNone hl) = snd (ct_pop hl).
+Lemma rct_removed dcs hl : fst (rct_set dcs PNone hl) = snd (ct_pop hl).
 Proof. reflexivity. Qed.
 
 (* Request.content_type: the value assigned reads back up to its first semicolon; existing parameters are kept
